@@ -81,6 +81,23 @@ inline void emit(const char *tag, const Segs &segs) {
     fputs(s.c_str(), stdout);
     fflush(stdout);
 }
+// iteration segment (C08): the vertex sequence of a range-for, then three flags - the post-increment traversal of edges() equals the
+// pre-increment one, a second traversal equals the first, begin() == end() - or an error code in place of the flags
+template <class G> Obs iterSeg(const G &g) {
+    Obs o;
+    for (auto v : g) o.push_back(v);
+    typedef std::pair<BaseGraph::VertexIndex, BaseGraph::VertexIndex> E;
+    std::vector<E> pre, post, again;
+    Z code = guard([&]() -> Z {
+        { auto es = g.edges(); for (auto it = es.begin(); it != es.end(); ++it) pre.push_back(*it); }
+        { auto es = g.edges(); auto it = es.begin(); while (it != es.end()) { auto old = it++; post.push_back(*old); } }
+        for (auto e : g.edges()) again.push_back(e);
+        return 0; });
+    if (code != 0) { o.push_back(code); o.push_back(code); o.push_back(code); return o; }
+    o.push_back(pre == post); o.push_back(pre == again);
+    o.push_back(guard([&]() -> Z { auto es = g.edges(); bool eq = es.begin() == es.end(); bool ne = es.begin() != es.end(); return eq == ne ? -7 : (Z)eq; }));
+    return o;
+}
 inline std::vector<std::string> splitOps(const std::string &body) {
     std::vector<std::string> r; std::stringstream ss(body); std::string op;
     while (std::getline(ss, op, ';')) { std::istringstream is(op); std::string k; if (is >> k) r.push_back(op); }
